@@ -36,7 +36,8 @@ META = {
             "tuple of what they archive; bool bytes other than 0/1 and json kinds > 7 are outside the model's domain.",
 }
 
-RULE = ("(a) case = (type shape, container length class) with a value generated from VERIF_SEED; non-trivial = every case (bytes compared, "
+RULE = ("(p) ygm_ptr: every rank registers N > 65536 pointers of one type, pointers with indices around 2^16 / 2^17 / N-1 travel through "
+        "async and async_bcast (alone and in a vector) and are dereferenced by the handler; (a) case = (type shape, container length class) with a value generated from VERIF_SEED; non-trivial = every case (bytes compared, "
         "both byte strings read back by the real input archive); (b)/(c) case = (layout, routing, capacity, schedule seed/policy): calibration "
         "message per handler type + generated asyncs/broadcasts from every rank to random destinations with random neighbours; every async-"
         "communicator MPI payload parsed by the model, every handler execution checked")
@@ -119,6 +120,72 @@ def part_probe(res, binary, seed):
     return ok_bcast
 
 
+# ----------------------------------------------------------------------------------- ygm_ptr registry indices beyond 16 bits
+
+def ptrbig_configs(tier, seed):
+    cfgs = [{"nodes": 1, "ppn": 2, "routing": "NONE", "cap": None, "N": 70000},
+            {"nodes": 2, "ppn": 2, "routing": "NLNR", "cap": 1, "N": 262200},
+            {"nodes": 2, "ppn": 3, "routing": "NR", "cap": 0, "N": 140000}]
+    if tier != "quick":
+        cfgs += [{"nodes": 3, "ppn": 2, "routing": "NLNR", "cap": None, "N": 1100000}, {"nodes": 1, "ppn": 1, "routing": "NONE", "cap": 0, "N": 65537},
+                 {"nodes": 2, "ppn": 2, "routing": "NONE", "cap": 1, "N": 65600}]
+    return [dict(c, part="ptrbig", seed=seed * 100 + i, sim_seed=seed * 31 + i) for i, c in enumerate(cfgs)]
+
+
+def run_ptrbig(res, binary, cfg):
+    """every rank registers N > 65536 ygm_ptr<PObj>; pointers with indices on both sides of 2^16 (and far above) go through
+    async / async_bcast, alone and in a vector; the handler dereferences them.  Oracle: arrived index == sent index and the
+    dereferenced object is the one the sender pointed to (same registration order on every rank)."""
+    env = {"YGM_COMM_ROUTING": cfg["routing"]}
+    if cfg["cap"] is not None:
+        env["YGM_COMM_BUFFER_SIZE_KB"] = cfg["cap"]
+    n = cfg["nodes"] * cfg["ppn"]
+    sr = C.run_sim(binary, ["ptrbig", cfg["seed"], cfg["N"]], nodes=cfg["nodes"], ppn=cfg["ppn"], env=env, sim_seed=cfg["sim_seed"],
+                   want_log=False, timeout=300)
+    case0 = {k: cfg[k] for k in ("part", "nodes", "ppn", "routing", "cap", "N", "seed", "sim_seed")}
+    if cfg.get("sanitize"):
+        case0["sanitize"] = True
+    if sr.verdict != "ok":
+        res.oracle_failures.append({"what": f"ygm_ptr run (N={cfg['N']} registrations per rank) failed: {sr.verdict} {sr.stderr[-300:]}",
+                                    "signature": "ygm-ptr-run-" + sr.verdict.split(":")[0].split()[0], "case": dict(case0, verdict=sr.verdict)})
+    sent, got = {}, {}
+    for r, lines in sr.outs.items():
+        for l in lines:
+            w = l.split()
+            if w and w[0] == "psent":
+                sent[int(w[1])] = {"src": r, "dest": int(w[2]), "want": [int(x) for x in w[3:]]}
+            elif w and w[0] == "precv":
+                got.setdefault((int(w[1]), r), []).append(w[2:])
+            elif w and w[0] == "registered" and (int(w[2]) != 0 or int(w[3]) != cfg["N"] - 1):
+                res.corr_failures.append({"relation": "check-machinery", "what": f"registry indices of the fresh type are not 0..N-1: {l}", "case": case0})
+    bad = 0
+    for uid, rec in sent.items():
+        ranks = range(n) if rec["dest"] < 0 else [rec["dest"]]
+        for r in ranks:
+            rows = got.get((uid, r))
+            res.evaluations += 1
+            res.distinct.add(("ptrbig", "bcast" if rec["dest"] < 0 else "async", len(rec["want"]) > 1, max(rec["want"]).bit_length()))
+            res.count("ptr-index:" + ("<2^16" if max(rec["want"]) < 65536 else "<2^17" if max(rec["want"]) < 131072 else ">=2^17"))
+            if rows is None:
+                if sr.verdict == "ok":
+                    res.oracle_failures.append({"what": f"ygm_ptr message uid {uid} never executed on rank {r}", "signature": "ygm-ptr-delivery-count", "case": dict(case0, uid=uid, sent=rec)})
+                continue
+            want = [str(x) for x in rec["want"]]
+            if [x[0] for x in rows] != want or any(x[1] != x[0] or x[2:] != ["1", "1"] for x in rows):
+                bad += 1
+                if bad <= 4:
+                    arrived = [x[1] for x in rows]
+                    trunc = [x for x in rows if x[1] != x[0]]
+                    sig = "ygm-ptr-index-truncated" if trunc and all(int(x[1]) == int(x[0]) % 65536 for x in trunc) else "ygm-ptr-wrong-object"
+                    res.oracle_failures.append({
+                        "what": f"ygm_ptr sent with registry index {want} arrived on rank {r} with index {arrived}; dereferencing it reaches "
+                                f"{'another' if any(x[2:] != ['1', '1'] for x in rows) else 'the same'} object (object ok / address ok = {[x[2:] for x in rows]})",
+                        "signature": sig, "case": dict(case0, uid=uid, api="async_bcast" if rec["dest"] < 0 else "async", sent=rec, received=rows)})
+    if not sent and sr.verdict == "ok":
+        res.corr_failures.append({"relation": "check-machinery", "what": "ptrbig run produced no messages", "case": case0})
+    return sr
+
+
 # ----------------------------------------------------------------------------------- (a) archive
 
 def archive_cases(tier, seed):
@@ -132,6 +199,8 @@ def archive_cases(tier, seed):
         if s in CHEAP:
             sizes += [(65535 + rnd.randrange(3), "boundary-65536")]
             sizes += [((300000 if tier == "quick" else 3000000) if s == 11 else (70000 if tier == "quick" else 1000000), "multi-MB" if tier != "quick" else "100KB+")]
+        if s in (29, 30):   # ygm_ptr / vector of ygm_ptr: forged registry indices around 2^16, 2^31, 2^32-1 (archived, never dereferenced)
+            sizes += [(2 + rnd.randrange(6), "ptr-wide-index") for _ in range(14 if tier == "quick" else 60)]
         if s <= 10:      # scalars: the length is irrelevant, draw more values instead
             sizes = [(0, "scalar")] * (12 if tier == "quick" else 60)
         for sz, cls in sizes:
@@ -526,6 +595,13 @@ def run(tier, seed, model_ok=True):
         res.notes.append("async_bcast crashes with stateful function objects (see oracle failure); the generated traffic therefore broadcasts "
                          "only through stateless handler types, everything else is unchanged")
     part_archive(res, binary, tier, seed, model_ok)
+    for sub in C.pmap(lambda c: (lambda r: (run_ptrbig(r, binary, c), r)[1])(C.Result()), ptrbig_configs(tier, seed)):
+        res.evaluations += sub.evaluations
+        res.distinct |= sub.distinct
+        res.oracle_failures += sub.oracle_failures
+        res.corr_failures += sub.corr_failures
+        for k, v in sub.distribution.items():
+            res.count(k, v)
     cfgs = traffic_configs(tier, seed)
     for c in cfgs:
         c["sb"] = 1 if sb else 0
@@ -564,11 +640,24 @@ def run(tier, seed, model_ok=True):
             for s2, _ in C.pmap(lambda c: (check_only_oracle(sbin, c), None), scfgs, workers=6):
                 sub.oracle_failures += s2.oracle_failures
                 sub.evaluations += s2.evaluations
+            for c in ptrbig_configs("quick", seed + 1)[:2]:
+                run_ptrbig(sub, sbin, dict(c, sanitize=True))
             for f in sub.oracle_failures:
                 f["signature"] = "sanitized " + f.get("signature", "")
             res.oracle_failures += sub.oracle_failures
             res.evaluations += sub.evaluations
             res.count("sanitized-evaluations", sub.evaluations)
+    # only the first few failures get a replay file: list one of every signature first (end-to-end cases before archive cases)
+    order, seen_sig = [], {}
+    for f in res.oracle_failures:
+        seen_sig.setdefault(f.get("signature", ""), []).append(f)
+    rank = lambda sg: (0 if sg.startswith("ygm-ptr") else 1 if not sg.startswith("archive") else 2)
+    groups = [seen_sig[k] for k in sorted(seen_sig, key=lambda sg: (rank(sg), list(seen_sig).index(sg)))]
+    while any(groups):
+        for g in groups:
+            if g:
+                order.append(g.pop(0))
+    res.oracle_failures = order
     return res
 
 
@@ -602,6 +691,8 @@ def replay(data):
     res = C.Result()
     if case.get("part") == "archive":
         part_archive(res, binary, case.get("tier", "quick"), case.get("seed", 1), True, only={case["k"]} if "k" in case else None)
+    elif case.get("part") == "ptrbig":
+        run_ptrbig(res, binary, case)
     elif case.get("part") == "probe":
         part_probe(res, binary, case.get("seed", 1))
         res.oracle_failures = [f for f in res.oracle_failures if f["case"]["api"] == case["api"] and f["case"]["opt"] == case["opt"]]
